@@ -194,7 +194,7 @@ func specGenuineER6(s *icmpDriver, p *packets.FrameParser, t uint8) bool {
 // (C11 too, in all four drivers: a sender writes its own driver, its own packet and the sink — its frame excludes
 // process-wide state, so nothing one run does while sending can reach another run's packets)
 //@ func (*icmpDriver).SendProbe
-//@ safety C06 C05 C14 C11
+//@ safety C06 C05 C14 C11 C19
 //@ requires[pre.nonnil]   s != nil && s.sink != nil && s.sentProbes != nil
 //@ requires[C10.send.open]  selb(isOpen, ref(s.sink))
 //@ requires[pre.past]     forall(k, 0, 256, s.sentProbes[k] <= now())
